@@ -530,7 +530,9 @@ class Job:
                 self._statepoint_requires_init = False
             self.statepoint.reset(new_statepoint)
 
-        self._project._register(self.id, new_statepoint)
+        # Register the state point the job actually has now (which is what
+        # the id was computed from), not the caller's mapping.
+        self._project._register(self.id, self.statepoint())
 
     @property
     def sp(self):
